@@ -433,3 +433,67 @@ PROPS["C04"] = {
         },
     ],
 }
+
+PROPS["C05"] = {
+    "level": "model_checking",
+    "claim": "Bounded symbolic model checking of the periphery of field-constraint handling: adt.matchPattern/matchPatternValue on every pattern tree of depth <= 2 over top, basic types, string and number bounds, exact strings and ints, & and |, and a symbolic regular label (string or int) agrees with 'the label read as an atom satisfies the pattern' under the C03 oracle; hidden, definition and let labels never match; allowedInClosed is exactly hidden/definition/let on all 2^32 features; MakeLabel/Index/Typ round-trip and reject out-of-range indices. The evidence-based typo check (which fields a closed struct admits) is outside this claim.",
+    "note": "Trusted: go/ssa, the executor, z3, the decimal contract model. Outside (most of the statement): checkTypos / closeContext evidence, insertArc, embeddings, close(), definitions closing recursively, required-field validation over struct trees, regexp patterns.",
+    "technique": "bounded symbolic execution of adt.matchPattern / matchPatternValue / BoundValue.validateStr / validateInt / Feature helpers from go/ssa with symbolic label strings and indices; agreement with the oracle decided by z3",
+    "bounds": {
+        "quick": "pattern trees of depth <= 2 with string operands <= 1 byte and int operands < 10; labels: strings <= 2 bytes or int indices < 10; all 32-bit features",
+        "thorough": "string operands <= 2 bytes, labels <= 3 bytes",
+    },
+    "outside": ["closedness evidence (typocheck.go, closed.go)", "insertArc / embeddings / close()", "required fields", "regexp patterns"],
+    "assumptions": APD_ASSUMPTIONS,
+    "runs": [
+        {
+            "pkg": "./internal/core/adt",
+            "harness": ["adt/common.go", "adt/validate.go", "adt/unify.go", "adt/pattern.go"],
+            "apdmodel": True,
+            "timeout": 90000,
+            "entries": {
+                "quick": [{"name": "verifHarnessMatchPattern", "params": {"STRLEN": 1}}, "verifHarnessFeatureClasses"],
+                "thorough": [{"name": "verifHarnessMatchPattern", "params": {"STRLEN": 2}}, "verifHarnessFeatureClasses"],
+            },
+        },
+    ],
+}
+
+PROPS["C07"] = {
+    "level": "model_checking",
+    "claim": "Bounded symbolic model checking of the value-preserving rewrites the CUE exporter applies: the compact int/uint + tightest-bounds form produced by boundSimplifier.add/expr denotes exactly the intersection of the conjuncts it reports as used, for an arbitrary probe number; a conjunction is printed as a predeclared range name (adt.MatchBuiltinRange) only if it denotes exactly that name's interval, every sized integer type expands (compile.LookupRange) to the spec's interval and is matched back to its own name; a string label printed through ast.NewStringLabel reads back (ast.LabelName) as the same field name, quoted exactly when it is not a plain regular identifier.",
+    "note": "Trusted: go/ssa, the executor, z3, the decimal contract model; exporter.expr for a bound leaf is stubbed by an opaque literal naming the bound. Outside: value.go/expr.go/adt.go/self.go (struct, reference, let, import printing), option profiles, the formatter, number formatting - i.e. 'the printed text parses and evaluates to the same value' as a whole is not claimed.",
+    "technique": "bounded symbolic execution of export.boundSimplifier, adt.MatchBuiltinRange, compile.LookupRange/mkIntRange, ast.NewStringLabel/LabelName from go/ssa; denotational equality for an arbitrary probe decided by z3",
+    "bounds": {
+        "quick": "bound simplifier: every sequence of 2 conjuncts from {int type, bound with op in < <= > >= != on an int or float operand, |coefficient| < 100, exponent in [-1,1]}; ranges: all 10 sized integer types and all perturbations of their bounds by -2..2 with/without the int type; labels: valid UTF-8 strings <= 3 bytes",
+        "thorough": "3 conjuncts; labels <= 4 bytes",
+    },
+    "outside": ["struct/reference/let/import printing", "formatter", "number text"],
+    "assumptions": APD_ASSUMPTIONS,
+    "validate": [{"kind": "apdgrid"}],
+    "runs": [
+        {
+            "pkg": "./internal/core/export",
+            "harness": ["export/bounds.go"],
+            "apdmodel": True,
+            "entries": {
+                "quick": [{"name": "verifHarnessBoundSimplifier", "params": {"DIGITS": 2, "EXP": 1, "K": 2}}],
+                "thorough": [{"name": "verifHarnessBoundSimplifier", "params": {"DIGITS": 2, "EXP": 1, "K": 3}}],
+            },
+        },
+        {
+            "pkg": "./internal/core/compile",
+            "harness": ["compile/ranges.go"],
+            "apdmodel": True,
+            "entries": {"quick": ["verifHarnessPredeclaredRanges"], "thorough": ["verifHarnessPredeclaredRanges"]},
+        },
+        {
+            "pkg": "./cue/ast",
+            "harness": ["ast/label.go"],
+            "entries": {
+                "quick": [{"name": "verifHarnessLabelRoundTrip", "params": {"N": 3}}],
+                "thorough": [{"name": "verifHarnessLabelRoundTrip", "params": {"N": 4}}],
+            },
+        },
+    ],
+}
